@@ -1266,6 +1266,11 @@ func FoldBinaryOperator(loc logger.Loc, e *EBinary) Expr {
 
 	case BinOpPow:
 		if left, right, ok := extractNumericValues(e.Left, e.Right); ok {
+			// Unlike Go's "math.Pow", JavaScript evaluates "1 ** NaN" and
+			// "(±1) ** ±Infinity" to NaN instead of 1
+			if math.IsNaN(right) || (math.Abs(left) == 1 && math.IsInf(right, 0)) {
+				return Expr{Loc: loc, Data: &ENumber{Value: math.NaN()}}
+			}
 			return Expr{Loc: loc, Data: &ENumber{Value: math.Pow(left, right)}}
 		}
 
